@@ -116,6 +116,10 @@ def explore(ctx):
     cases = []
     for i in range(n_inputs):
         ints_only = rng.random() < 0.6
+        # one input in seven is grouped by time slice: timestamps on and around the slice boundaries, in any order
+        use_ts = rng.random() < 0.15
+        if use_ts:
+            ints_only = True
         n = rng.randint(0, 5) if rng.random() < 0.5 else rng.randint(6, 14)
         rows = []
         for j in range(n):
@@ -127,6 +131,9 @@ def explore(ctx):
                 r['a'] = rng.randint(-9, 9) if ints_only else rng.choice([rng.randint(-9, 9), rng.random() * 10, 0.1, 1e15 + 0.5, None, 'x', 'nan'])
             if rng.random() < 0.8:
                 r['b'] = rng.choice([1, 2, 3, 2**40, -5]) if ints_only else rng.choice([0.5, 2, 1e300, -1e300, 7, 2**53 - 1, 2**53 + 1])
+            if use_ts:
+                sec = rng.choice([0, 30, 59, 60, 60, 61, 90, 119, 120, 120, 180, 3600])
+                r['ts'] = '2020-03-01T%02d:%02d:%02dZ' % (10 + sec // 3600, (sec % 3600) // 60, sec % 60)
             rows.append(r)
         fns = [(None, ('count', None))]
         for t, c in rng.sample([('sum', 'a'), ('min', 'a'), ('max', 'a'), ('avg', 'a'), ('distinct', 'a'), ('sum', 'b'), ('max', 'b'), ('min', 'b'), ('distinct', 'k')], rng.randint(1, 4)):
@@ -134,8 +141,10 @@ def explore(ctx):
         if rng.random() < 0.15:
             fns.append((None, ('pct', 50, col('a'))))
         keys = [(None, col('k'))] if rng.random() < 0.8 else []
+        if use_ts:
+            keys = [(None, col('_timeslice'))]
         st = ('agg', fns, keys)
-        stages = [('json', None), st]
+        stages = [('json', None)] + ([('timeslice', gen.DATE_EXPR, 60 * 10**9, None)] if use_ts else []) + [st]
         lines = [gen.jtext(r) for r in rows]
         if n <= 5:
             perms = list(itertools.permutations(range(n)))
@@ -195,7 +204,7 @@ def explore(ctx):
         kinds[r['model']['kind']] = kinds.get(r['model']['kind'], 0) + 1
     cov = {
         'evaluations': len(cases), 'distinct_nontrivial': len(nontrivial),
-        'rule': 'inputs of 0..14 rows x aggregation (count + 1..4 of sum/min/max/avg/count_distinct [+p50], by k or global): all permutations when <=5 rows '
+        'rule': 'inputs of 0..14 rows x aggregation (count + 1..4 of sum/min/max/avg/count_distinct [+p50], by k, by one-minute time slice (timestamps on and around slice boundaries) or global): all permutations when <=5 rows '
                 '(quick: at most 24), else random ones; every split point A++B with the merge recomputed from the implementation\'s two outputs; '
                 'integer-only inputs are compared exactly, float inputs within the recursive-summation error bound 2(n+1)u*sum|x_i|; non-trivial = >=4 rows and >=2 groups',
         'samples': samples_of([c for c in cases if 'base' in c.tags][3:6]),
